@@ -374,7 +374,7 @@ fn gen_datestring(t: &mut Tape, git_window: bool) -> DateString {
             let a = offset.unsigned_abs();
             let (mut hh, mut mm) = (a / 3600, a % 3600 / 60);
             let mut sign = if offset < 0 { '-' } else { '+' };
-            match t.weighted(&[10, 2, 2, 2]) {
+            match t.weighted(&[9, 2, 3, 2]) {
                 0 => {}
                 1 => {
                     // minutes 60..99: outside what `write_to` can produce
@@ -382,10 +382,11 @@ fn gen_datestring(t: &mut Tape, git_window: bool) -> DateString {
                     variant = "raw-minutes-ge-60";
                 }
                 2 => {
-                    if offset == 0 {
-                        sign = '-';
-                        variant = "raw-minus-zero";
-                    }
+                    offset = 0;
+                    hh = 0;
+                    mm = 0;
+                    sign = '-';
+                    variant = "raw-minus-zero";
                 }
                 _ => {
                     seconds = t.range_i64(-1000, 99_999_999);
@@ -638,7 +639,7 @@ pub fn main() {
     ck.assume("a zone of exactly -0001 is not put to git (git's parse_date_basic uses offset -1 as its 'no zone' marker and substitutes the local zone)");
     ck.assume("RAW offsets of 24h and more round-trip in gitoxide by design (object headers) and are ignored by git's approxidate; they are not put to git");
 
-    ck.sub("roundtrip", SubCfg::new(60_000, 2_000_000).max_len(40), |t, c| {
+    ck.sub("roundtrip", SubCfg::new(200_000, 4_000_000).max_len(40), |t, c| {
         let f = *t.pick(&ALL_F);
         c.label(f.name());
         let (seconds, offset, sign, class) = if f.is_custom() {
@@ -694,7 +695,7 @@ pub fn main() {
         );
     });
 
-    ck.sub("strings", SubCfg::new(40_000, 1_500_000).max_len(48), |t, c| {
+    ck.sub("strings", SubCfg::new(100_000, 2_000_000).max_len(48), |t, c| {
         let d = gen_datestring(t, false);
         c.key(&d.text);
         c.label(d.grammar.name());
